@@ -10,6 +10,7 @@ import (
 	"verif/harness/astx"
 	"verif/harness/enum"
 	"verif/harness/gen"
+	"verif/harness/reftok"
 	"verif/harness/run"
 )
 
@@ -247,6 +248,18 @@ func grammarCase(w *run.Worker, l *gen.Laid, spans bool, family string) {
 	w.Begin(name+":"+family, src)
 	if len(l.Lexemes) >= 3 {
 		w.Nontrivial()
+	}
+	// self-check of the generator: the reference tokenizer must read back exactly the printed lexemes
+	rt := reftok.Scan(src)
+	if len(rt) != len(l.Lexemes) {
+		w.HarnessError(fmt.Sprintf("printer self-check: %d lexemes printed, reference tokenizer reads %d in %q", len(l.Lexemes), len(rt), src))
+		return
+	}
+	for i := range rt {
+		if rt[i].Start != l.Lexemes[i].Start || rt[i].End != l.Lexemes[i].End {
+			w.HarnessError(fmt.Sprintf("printer self-check: lexeme %d printed at [%d,%d), read at [%d,%d) in %q", i, l.Lexemes[i].Start, l.Lexemes[i].End, rt[i].Start, rt[i].End, src))
+			return
+		}
 	}
 	var stmts []parser.Statement
 	var err error
